@@ -243,11 +243,11 @@ def Dir.name : Dir → Str
 /-- template AST.  `elem`: an element with static attributes and its `py:`
     attributes in source order; `delem`: a directive in element form
     (`<py:for each=…>`), which is also a text-template block. -/
-inductive Node where
+inductive TNode where
   | text (s : Str)
   | expr (x : XExpr)
-  | elem (tag : Name) (attrs : List (Name × Str)) (dirs : List Dir) (kids : List Node)
-  | delem (d : Dir) (kids : List Node)
+  | elem (tag : Name) (attrs : List (Name × Str)) (dirs : List Dir) (kids : List TNode)
+  | delem (d : Dir) (kids : List TNode)
   deriving Repr, Inhabited
 
 /-! ### rendering of values (`Template._flatten`, EXPR branch) -/
